@@ -32,7 +32,7 @@ VARIABLES text,     \* [path |-> [file |-> buffer]]  (functions as records keyed
           edit      \* the last text-moving edit: [p, f, at, dl, db] or NoEdit (C18)
 
 svars == <<text, starts, fp, memo, edit>>
-NoEdit == [p |-> "", f |-> "", at |-> 0, dl |-> 0, db |-> 0]
+NoEdit == [p |-> "", f |-> "", at |-> 0, dl |-> 0, db |-> 0, app |-> FALSE, oeof |-> <<0, 0, 0>>, neof |-> <<0, 0, 0>>, anch |-> {}]
 
 Has(f, x) == x \in DOMAIN f
 Put(f, x, v) == [y \in DOMAIN f \cup {x} |-> IF y = x THEN v ELSE f[y]]
@@ -63,17 +63,24 @@ Collect(p, newfp) ==
 
 \* The client inserts whole lines `ins` before line `at` of file f (blank or comment lines
 \* placed before a top-level item): the only thing that changes is where the text is.
-InsertLinesAt(p, f, at, ins) ==
+InsertLinesAt(p, f, at, ins, anch) ==
   LET new == InsertLines(text[p][f], at, ins) IN
-  /\ Has(text, p) /\ Has(text[p], f) /\ at \in 1..Len(text[p][f])
+  /\ Has(text, p) /\ Has(text[p], f) /\ at \in 1..(Len(text[p][f]) + 1)   \* Len+1: appended after an unterminated last line
   /\ text'   = Put(text, p, Put(text[p], f, new))
   /\ starts' = Put(starts, p, Put(starts[p], f, LineStarts(new)))
-  /\ edit' = [p |-> p, f |-> f, at |-> at, dl |-> Len(ins), db |-> InsBytes(ins)]
+  /\ edit' = [p |-> p, f |-> f, at |-> at, dl |-> Len(ins), db |-> InsBytes(ins),
+               app |-> (at = Len(text[p][f]) + 1), oeof |-> EofPos(text[p][f]), neof |-> EofPos(new), anch |-> anch]
   /\ fp' = "" /\ memo' = EmptyFn
 
 \* C18: a position reported before the edit and the corresponding one reported after it
 \* pr = <<b, l, c, b2, l2, c2>>
-MovedOK(pr) == ShiftPos(<<>>, edit.at, edit.dl, edit.db, pr[1], pr[2], pr[3]) = <<pr[4], pr[5], pr[6]>>
+\* (when lines are appended after an unterminated last line, the old end of the buffer IS the insertion point: a result
+\*  position there may denote the end of the buffer, which moves to the new end, or the end of the last item, which stays)
+MovedOK(pr) == \/ ShiftPos(<<>>, edit.at, edit.dl, edit.db, pr[1], pr[2], pr[3]) = <<pr[4], pr[5], pr[6]>>
+               \/ edit.app /\ <<pr[1], pr[2], pr[3]>> = edit.oeof /\ <<pr[4], pr[5], pr[6]>> = edit.neof
+               \* likewise where the parser says the root body of the file begins (the first token that is not a comment,
+               \* possibly the line end after a block comment): logged before and after by the harness
+               \/ pr \in edit.anch
 BadMoves(obs) == {i \in DOMAIN obs.pairs : ~MovedOK(obs.pairs[i])}
 
 \* ---- predicates on a query observation ------------------------------------
